@@ -413,7 +413,7 @@ package netty
 // "provided exception handlers do not themselves panic" (C07): no may_panic here
 //@ assume iface Pipeline.FireChannelException
 //@   modifies all
-//@   preserves handlerContext.*, pipeline.*, ghost node, ghost pos
+//@   preserves handlerContext.*, pipeline.*, ghost node, ghost pos, channel.ctx, channel.cancel, channel.transport, channel.executor, channel.pipeline, channel.writeQueue, channel.untilWrite, channel.writeBuffers, channel.recycleBuffers, channel.id, channel.closed
 
 //@ property C07 C03
 //@ func AsException
@@ -445,11 +445,12 @@ package netty
 //@ assume functype context.CancelFunc
 
 // what "Close has returned" leaves behind (stable: closed is monotone, a closed Done channel stays closed)
-//@ spec func closedState(c *channel) bool = c.closed == 1 && chclosed(ctxdone(c.ctx))
+//@ spec func closedState(c *channel) bool = c.closed == 1 && chclosed(ctxdone(c.ctx)) && tclosed(c.transport)
 //@ spec func chinv(c *channel) bool = c != nil && c.ctx != nil && c.transport != nil && c.executor != nil && c.cancel != nil && c.pipeline != nil
 //@ spec func asyncInv(c *channel) bool = chinv(c) && c.writeQueue != nil && cap(c.writeQueue) >= 1
 
 //@ func (*channel).asyncWrite
+//@   inline
 //@   requires asyncInv(c) && ctx != nil && len(p) <= 1<<47
 //@   modifies ghost pooltyp, ghost chclosed, elems(uint8), cell([]byte), channel.running
 //@   ensures at_most_one_enqueue: count("select send c.writeQueue") <= 1
@@ -470,6 +471,7 @@ package netty
 
 // asyncWritev: all buffers are merged into ONE packet (C09: a vectored message is one queue entry)
 //@ func (*channel).asyncWritev
+//@   inline
 //@   requires asyncInv(c) && ctx != nil
 //@   modifies ghost pooltyp, ghost chclosed, elems(uint8), cell([]byte), channel.running
 //@   loop 0 modifies elems(uint8)
@@ -568,3 +570,79 @@ package netty
 //@ order (*channel).writeOnce: "BuffersWriter.Writev" dominates "pbytes.Put"
 //@ order (*channel).writeOnce: "Transport.Flush" dominates "store c.running"
 //@ order (*channel).writeOnce: "store c.running" dominates "cas c.running"
+
+// ---------------------------------------------------------------------------
+// low-level write entry points
+//@ func (*channel).write1
+//@   requires chinv(c) && implies(c.writeQueue != nil, cap(c.writeQueue) >= 1) && len(p) <= 1<<47
+//@   modifies ghost pooltyp, ghost chclosed, elems(uint8), cell([]byte), channel.running
+//@   ensures at_most_one_enqueue: count("select send c.writeQueue") <= 1
+//@   ensures async_never_touches_transport: implies(old(c.writeQueue) != nil, count("net.Conn.Write") == 0 && count("Transport.Flush") == 0 && count("lock c.writeLock") == 0)
+//@   ensures sync_never_enqueues: implies(old(c.writeQueue) == nil, count("select send c.writeQueue") == 0 && count("cas c.running") == 0)
+//@   ensures error_means_not_enqueued: implies(err != nil, count("select send c.writeQueue") == 0)
+//@   ensures async_success_means_enqueued: implies(old(c.writeQueue) != nil && err == nil && count("select recv c.ctx.Done()") == 0 && old(c.closeErr) == nil, count("select send c.writeQueue") == 1)
+//@   ensures sync_locked_write_then_flush: implies(old(c.writeQueue) == nil && count("net.Conn.Write") == 1, evis(0, "lock c.writeLock") && evrecv(first("net.Conn.Write")) == old(c.transport) && sameslice(evarg(first("net.Conn.Write"), 0), p) && count("unlock c.writeLock") == 1 && evis(nemitted()-1, "unlock c.writeLock") && count("lock c.writeLock") == 1)
+//@   ensures sync_flush_iff_written: implies(old(c.writeQueue) == nil && count("net.Conn.Write") == 1, (count("Transport.Flush") == 1) == (evres(first("net.Conn.Write"), 1) == nil) && implies(count("Transport.Flush") == 1, first("Transport.Flush") > first("net.Conn.Write") && first("Transport.Flush") < last("unlock c.writeLock")))
+//@   ensures sync_result: implies(old(c.writeQueue) == nil && count("net.Conn.Write") == 1 && count("Transport.Flush") == 0, err == evres(first("net.Conn.Write"), 1)) && implies(count("Transport.Flush") == 1, err == evres(first("Transport.Flush"), 0))
+//@   ensures closed_rejects: implies(old(closedState(c)), err != nil && count("select send c.writeQueue") == 0)
+//@ func (*channel).Writev
+//@   requires chinv(c) && implies(c.writeQueue != nil, cap(c.writeQueue) >= 1)
+//@   modifies ghost pooltyp, ghost chclosed, elems(uint8), cell([]byte), channel.running
+//@   ensures at_most_one_enqueue: count("select send c.writeQueue") <= 1
+//@   ensures async_never_touches_transport: implies(old(c.writeQueue) != nil, count("BuffersWriter.Writev") == 0 && count("Transport.Flush") == 0 && count("lock c.writeLock") == 0)
+//@   ensures sync_never_enqueues: implies(old(c.writeQueue) == nil, count("select send c.writeQueue") == 0 && count("cas c.running") == 0)
+//@   ensures error_means_not_enqueued: implies(err != nil, count("select send c.writeQueue") == 0)
+//@   ensures async_success_means_enqueued: implies(old(c.writeQueue) != nil && err == nil && count("select recv c.ctx.Done()") == 0 && old(c.closeErr) == nil, count("select send c.writeQueue") == 1)
+//@   ensures sync_locked_write_then_flush: implies(old(c.writeQueue) == nil && count("BuffersWriter.Writev") == 1, evis(0, "lock c.writeLock") && evrecv(first("BuffersWriter.Writev")) == old(c.transport) && sameslice(evarg(first("BuffersWriter.Writev"), 0), p) && count("unlock c.writeLock") == 1 && evis(nemitted()-1, "unlock c.writeLock") && count("lock c.writeLock") == 1)
+//@   ensures sync_flush_iff_written: implies(old(c.writeQueue) == nil && count("BuffersWriter.Writev") == 1, (count("Transport.Flush") == 1) == (evres(first("BuffersWriter.Writev"), 1) == nil) && implies(count("Transport.Flush") == 1, first("Transport.Flush") > first("BuffersWriter.Writev") && first("Transport.Flush") < last("unlock c.writeLock")))
+//@   ensures sync_result: implies(old(c.writeQueue) == nil && count("BuffersWriter.Writev") == 1 && count("Transport.Flush") == 0, err == evres(first("BuffersWriter.Writev"), 1)) && implies(count("Transport.Flush") == 1, err == evres(first("Transport.Flush"), 0))
+//@   ensures closed_rejects: implies(old(closedState(c)), err != nil && count("select send c.writeQueue") == 0)
+//@ func (*channel).CtxWrite1
+//@   requires chinv(c) && implies(c.writeQueue != nil, cap(c.writeQueue) >= 1) && ctx != nil && len(p) <= 1<<47
+//@   modifies ghost pooltyp, ghost chclosed, elems(uint8), cell([]byte), channel.running
+//@   ensures at_most_one_enqueue: count("select send c.writeQueue") <= 1
+//@   ensures async_never_touches_transport: implies(old(c.writeQueue) != nil, count("net.Conn.Write") == 0 && count("Transport.Flush") == 0 && count("lock c.writeLock") == 0)
+//@   ensures sync_never_enqueues: implies(old(c.writeQueue) == nil, count("select send c.writeQueue") == 0 && count("cas c.running") == 0)
+//@   ensures error_means_not_enqueued: implies(err != nil, count("select send c.writeQueue") == 0)
+//@   ensures async_success_means_enqueued: implies(old(c.writeQueue) != nil && err == nil && count("select recv c.ctx.Done()") == 0 && old(c.closeErr) == nil, count("select send c.writeQueue") == 1)
+//@   ensures sync_locked_write_then_flush: implies(old(c.writeQueue) == nil && count("net.Conn.Write") == 1, evis(0, "lock c.writeLock") && evrecv(first("net.Conn.Write")) == old(c.transport) && sameslice(evarg(first("net.Conn.Write"), 0), p) && count("unlock c.writeLock") == 1 && evis(nemitted()-1, "unlock c.writeLock") && count("lock c.writeLock") == 1)
+//@   ensures sync_flush_iff_written: implies(old(c.writeQueue) == nil && count("net.Conn.Write") == 1, (count("Transport.Flush") == 1) == (evres(first("net.Conn.Write"), 1) == nil) && implies(count("Transport.Flush") == 1, first("Transport.Flush") > first("net.Conn.Write") && first("Transport.Flush") < last("unlock c.writeLock")))
+//@   ensures sync_result: implies(old(c.writeQueue) == nil && count("net.Conn.Write") == 1 && count("Transport.Flush") == 0, err == evres(first("net.Conn.Write"), 1)) && implies(count("Transport.Flush") == 1, err == evres(first("Transport.Flush"), 0))
+//@   ensures closed_rejects: implies(old(closedState(c)), err != nil && count("select send c.writeQueue") == 0)
+//@ func (*channel).CtxWritev
+//@   requires chinv(c) && implies(c.writeQueue != nil, cap(c.writeQueue) >= 1) && ctx != nil
+//@   modifies ghost pooltyp, ghost chclosed, elems(uint8), cell([]byte), channel.running
+//@   ensures at_most_one_enqueue: count("select send c.writeQueue") <= 1
+//@   ensures async_never_touches_transport: implies(old(c.writeQueue) != nil, count("BuffersWriter.Writev") == 0 && count("Transport.Flush") == 0 && count("lock c.writeLock") == 0)
+//@   ensures sync_never_enqueues: implies(old(c.writeQueue) == nil, count("select send c.writeQueue") == 0 && count("cas c.running") == 0)
+//@   ensures error_means_not_enqueued: implies(err != nil, count("select send c.writeQueue") == 0)
+//@   ensures async_success_means_enqueued: implies(old(c.writeQueue) != nil && err == nil && count("select recv c.ctx.Done()") == 0 && old(c.closeErr) == nil, count("select send c.writeQueue") == 1)
+//@   ensures sync_locked_write_then_flush: implies(old(c.writeQueue) == nil && count("BuffersWriter.Writev") == 1, evis(0, "lock c.writeLock") && evrecv(first("BuffersWriter.Writev")) == old(c.transport) && sameslice(evarg(first("BuffersWriter.Writev"), 0), pv) && count("unlock c.writeLock") == 1 && evis(nemitted()-1, "unlock c.writeLock") && count("lock c.writeLock") == 1)
+//@   ensures sync_flush_iff_written: implies(old(c.writeQueue) == nil && count("BuffersWriter.Writev") == 1, (count("Transport.Flush") == 1) == (evres(first("BuffersWriter.Writev"), 1) == nil) && implies(count("Transport.Flush") == 1, first("Transport.Flush") > first("BuffersWriter.Writev") && first("Transport.Flush") < last("unlock c.writeLock")))
+//@   ensures sync_result: implies(old(c.writeQueue) == nil && count("BuffersWriter.Writev") == 1 && count("Transport.Flush") == 0, err == evres(first("BuffersWriter.Writev"), 1)) && implies(count("Transport.Flush") == 1, err == evres(first("Transport.Flush"), 0))
+//@   ensures closed_rejects: implies(old(closedState(c)), err != nil && count("select send c.writeQueue") == 0)
+//@ func (*channel).Write1
+//@   inline
+//@ func (*channel).Writer
+//@   requires c != nil
+//@   ensures is(result, channelWriter) && as(result, channelWriter).channel == c
+//@ func (channelWriter).Write
+//@   requires c.channel != nil
+//@   may_panic true
+//@   ensures delegates: nemitted() == 1 && evis(0, "Channel.Write1") && evrecv(0) == c.channel && sameslice(evarg(0, 0), p) && n == evres(0, 0) && err == evres(0, 1)
+
+// Write / Trigger: pipeline entry points; a panic in any handler never escapes (C07)
+//@ func (*channel).Write
+//@   requires chinv(c)
+//@   modifies all
+//@   preserves handlerContext.*, pipeline.*, ghost node, ghost pos, channel.ctx, channel.cancel, channel.transport, channel.executor, channel.pipeline, channel.writeQueue, channel.untilWrite, channel.writeBuffers, channel.recycleBuffers, channel.id, channel.closed
+//@   ensures fires_write: implies(count("recv c.ctx.Done()") == 0, count("Pipeline.FireChannelWrite") == 1 && evrecv(first("Pipeline.FireChannelWrite")) == old(c.pipeline) && evarg(first("Pipeline.FireChannelWrite"), 0) == message)
+//@   ensures inactive_fails: implies(count("recv c.ctx.Done()") == 1, count("Pipeline.FireChannelWrite") == 0 && evres(0, 0) != 0)
+//@   ensures exception_at_most_once: count("Pipeline.FireChannelException") <= 1 && implies(count("Pipeline.FireChannelException") == 1, first("Pipeline.FireChannelException") > first("Pipeline.FireChannelWrite"))
+//@   ensures closed_rejects: implies(old(closedState(c)), result != nil && count("Pipeline.FireChannelWrite") == 0)
+//@ func (*channel).Trigger
+//@   requires chinv(c)
+//@   modifies all
+//@   preserves handlerContext.*, pipeline.*, ghost node, ghost pos, channel.ctx, channel.cancel, channel.transport, channel.executor, channel.pipeline, channel.writeQueue, channel.untilWrite, channel.writeBuffers, channel.recycleBuffers, channel.id, channel.closed
+//@   ensures fires_event: count("Pipeline.FireChannelEvent") == 1 && evis(0, "Pipeline.FireChannelEvent") && evrecv(0) == old(c.pipeline) && evarg(0, 0) == event
+//@   ensures exception_at_most_once: count("Pipeline.FireChannelException") <= 1
